@@ -253,7 +253,8 @@ func init() {
 				if e.Seen["MAPINS"] == 0 && k == "alive" && !aliveFound(g) {
 					return true
 				}
-				return e.Seen["TIMERDEL"] >= 1
+				// clearing is moot on a path that established that no timer exists
+				return e.Seen["TIMERDEL"] >= 1 || g(vTimer) == "F"
 			})
 		}
 		nts := 0
